@@ -73,6 +73,8 @@ def run(chk):
         if name and o == model[i] and fnd.covers(name, {"base": b, "reference": r}): continue
         chk.violation("resolution result differs from RFC 3986 5.2.2: got %s, expected %s" % (show(got), show(sp)),
                       {"request": reqs[i], "base": b, "reference": r, "compat_option": c, "build": fl, "impl": o, "expected_text": show(sp), "shape": name})
+    wp = [(enc_s(r), enc_s(b)) for r, b, c in (pairs[:: max(1, len(pairs) // 4000)])]
+    lib.wrapper_check(chk, exes, wp, ("addbase", "addbaseex"), "uriAddBaseUri / uriAddBaseUriEx do not behave like uriAddBaseUriExMm with the documented defaults (%s)")
     if corr and not chk.violations:
         i, fl, o = corr[0]
         chk.violation("correspondence broken: Model/Resolve.v and uriAddBaseUriExMm disagree (%d cases)" % len(corr),
